@@ -241,6 +241,19 @@ def run(tier):
                     geo.set_column_num_layers(col)
             geo.setup_block_name_index()
             geo.setup_block_connection_name_index()
+            if geo.num_columns >= 3 and rng.random() < 0.5:
+                # a renamed column (dictionary order then differs from list order)
+                col = rng.choice(geo.columnlist[:-1])
+                newname = {0: "zzz", 1: "98", 2: "998", 3: "zzz"}[conv].rjust(geo.colname_length)
+                if newname not in geo.column:
+                    if col.default_surface:
+                        col.surface = round(geo.layerlist[0].bottom - 0.25 * geo.layerlist[1].thickness, 2)
+                        geo.set_column_num_layers(col)
+                    later = geo.columnlist[geo.columnlist.index(col) + 1]
+                    if later.default_surface:
+                        later.surface = round(geo.layerlist[0].bottom - 0.5 * geo.layerlist[1].thickness, 2)
+                        geo.set_column_num_layers(later)
+                    geo.rename_column(col.name, newname)
             for w in range(rng.randint(0, 2)):
                 geo.add_well(m.well("wl%3d" % w, [np.array([round(rng.uniform(0, 100), 1), round(rng.uniform(0, 100), 1), round(-50.0 * k, 1)])
                                                   for k in range(rng.randint(2, 6))]))
